@@ -118,7 +118,7 @@ fn matrix_case(rng: &mut StdRng, i: u64) -> (TestNode, ChitchatId, bool, Option<
     let mut node = mk_node(simple_id("n", 9799), &NodeOpts { dead_grace: Duration::from_secs(20), max_interval: Duration::from_secs(2), initial_interval: Duration::from_secs(1), phi: 2.0, ..Default::default() });
     let x = xid((i % 7) as u16);
     let xc = cid(&x);
-    let kind = i % 6;
+    let kind = i % 7;
     let gen_kvs = |rng: &mut StdRng, upto: u64, min_tomb: u64| -> Vec<(String, String, u64, u8)> {
         let mut v = vec![];
         let mut ver = 0;
@@ -151,6 +151,15 @@ fn matrix_case(rng: &mut StdRng, i: u64) -> (TestNode, ChitchatId, bool, Option<
             let mv = rng.random_range(gc..gc + 8);
             let kvs = gen_kvs(rng, mv, gc);
             install_member(&mut node.cc, "c", &x, 3, gc, &kvs, mv).unwrap();
+        }
+        6 => {
+            // removed, but the copy had been created by a catch-up call and never saw a heartbeat
+            let kvs = gen_kvs(rng, 5, 0);
+            let kv: Vec<(String, VersionedValue)> = kvs.iter().map(|(k, v, ver, st)| (k.clone(), vv(v, *ver, *st))).collect();
+            node.cc.reset_node_state_if_update(&xc, kv.into_iter(), 6, 0);
+            node.cc.verif_update_nodes_liveness();
+            advance = Some(Duration::from_secs(21));
+            removed = true;
         }
         _ => {
             // removed: known, dead for the whole grace period, garbage collected
@@ -210,7 +219,7 @@ async fn run_matrix(seed: u64, i: u64) -> COut {
     for j in 0..rng.random_range(1..4) {
         let before = view(&node.cc, &xc);
         let sup = random_supplied(&mut rng, before.as_ref());
-        call_and_check(&mut node.cc, &xc, &sup, was_removed, &format!("matrix case {i} call {j} (existing copy kind {})", i % 6), &mut out);
+        call_and_check(&mut node.cc, &xc, &sup, was_removed, &format!("matrix case {i} call {j} (existing copy kind {})", i % 7), &mut out);
         if !out.findings.is_empty() {
             break;
         }
@@ -378,9 +387,9 @@ pub fn check(args: &Args) -> Outcome {
     }
     ev.samples = vec![
         json!({"directed": "copy (watermark 9, max version 2) after a gossip reset; supplied (max version 9, watermark 9, a@1 b@2)"}),
-        json!({"matrix": "existing copy in {absent, empty, mid-reset, behind, ahead, garbage collected} x supplied {consistent ascending versions | arbitrary keys / versions / statuses, max version in {0, copy's, copy's+1, top, above, random}, watermark in {0, copy's, copy's-1, copy's+1, max version, random}}"}),
+        json!({"matrix": "existing copy in {absent, empty, mid-reset, behind, ahead, garbage collected, created by catch-up then garbage collected} x supplied {consistent ascending versions | arbitrary keys / versions / statuses, max version in {0, copy's, copy's+1, top, above, random}, watermark in {0, copy's, copy's-1, copy's+1, max version, random}}"}),
     ];
-    ev.rule = "case = real node with an existing copy of one of six kinds (installed through real message processing; 'removed' through the real dead-node GC) + 1-3 calls with seeded supplied states, each followed by a liveness evaluation; interleaved cases = seeded E1 traces in which a node is caught up from another node's real copy every ~6 steps and gossip continues; distinct = distinct (case, outcome) pairs; every call is non-trivial (it is checked against all clauses)".into();
+    ev.rule = "case = real node with an existing copy of one of seven kinds (installed through real message processing; 'removed' through the real dead-node GC) + 1-3 calls with seeded supplied states, each followed by a liveness evaluation; interleaved cases = seeded E1 traces in which a node is caught up from another node's real copy every ~6 steps and gossip continues; distinct = distinct (case, outcome) pairs; every call is non-trivial (it is checked against all clauses)".into();
     ev.assumptions = vec!["a copy that was absent and is an empty copy at (0,0) after a refused call counts as unchanged".into(), "the member passed is never the node's own".into()];
     let nothing = ev.counters.get("calls_applied") == 0 || ev.counters.get("calls_unchanged") == 0;
     Outcome { evidence: ev, violations, nothing_observed: nothing }
